@@ -111,19 +111,20 @@ def matchTypeVersions (typeVer st : Str) : Bool :=
     | some (.ofNat maxVer) => (List.range (maxVer + 1)).any fun v => (base ++ ':' :: decimal v) == st
     | some (.negSucc _) => false                      -- empty range
 
-/-- `_build_responses(headers)` (default options) given the ST header value (`""` when absent) -/
-def buildResponses (t : DevTree) (stHeader : Str) : List Msg :=
+/-- `_build_responses(headers)` given the ST header value (`""` when absent); `alwaysRoot` is the
+    responder option `ssdp_search_responder_always_rootdevice` (the other option constants,
+    `search_headers` / `advertisement_headers`, are defined in `server.py` but never read) -/
+def buildResponses (t : DevTree) (alwaysRoot : Bool) (stHeader : Str) : List Msg :=
   let st := lower stHeader
   let devs := allDevices t
   let svcs := allServices t
-  if st = ssdpAll then
+  (if st = ssdpAll then
     respRoot t :: (devs.map respUdn ++ devs.map (respDevType none) ++ svcs.map (respSvc none))
   else if st = rootDevice then [respRoot t]
-  else match devicesMatchingUdn st t with
-    | d :: ds => (d :: ds).map respUdn
-    | [] => match devs.filter (fun d => matchTypeVersions d.type st) with
-      | d :: ds => (d :: ds).map (respDevType (some st))
-      | [] => (svcs.filter (fun s => matchTypeVersions s.type st)).map (respSvc (some st))
+  else (devicesMatchingUdn st t).map respUdn
+    ++ (devs.filter (fun d => matchTypeVersions d.type st)).map (respDevType (some st))
+    ++ (svcs.filter (fun s => matchTypeVersions s.type st)).map (respSvc (some st)))
+  ++ (if alwaysRoot then [respRoot t] else [])
 
 /-- `_build_advertisements`: (NT, USN) list in emission order -/
 def advertisements (t : DevTree) : List Msg :=
@@ -141,6 +142,7 @@ structure Consts where
   guardTruthy : Bool      -- the delayed send is selected by `if delay:` (true) or `if delay > 0:` (false)
   sendNowAlso : Bool      -- `_send_responses` also runs after the delayed send was scheduled
   announceMs : Nat        -- ANNOUNCE_INTERVAL in milliseconds
+  alwaysRoot : Bool := false  -- responder option `ssdp_search_responder_always_rootdevice` (not from the source)
 
 /-- an incoming request as `_on_data` sees it -/
 structure Req where
@@ -173,7 +175,7 @@ def onData (k : Consts) (t : DevTree) (r : Req) : Plan :=
   if r.line ≠ mSearchLine ∨ r.man ≠ some ssdpDiscover then .ignore
   else
     let delay := delayOf k r.mx
-    match buildResponses t (r.st.getD []) with
+    match buildResponses t k.alwaysRoot (r.st.getD []) with
     | [] => .ignore
     | m :: ms =>
       let delayed : Bool := if k.guardTruthy then delay != 0 else decide (delay > 0)
